@@ -285,8 +285,9 @@ def check(prog, res, tier):
                 seen_len = True
             elif lab.startswith('raise ') and c == 1:
                 seen_len = True       # the operation that failed (its condition is in the store)
-            elif not seen_len and (lab.startswith('hex_bitmap') or re.fullmatch(r'dict#\d+ non-empty', lab)):
-                continue              # which bitmap rendering, which configuration: settled before the message is looked at
+            elif not seen_len and not lab.startswith(('for:', 'while:', 'raise ')):
+                continue              # which bitmap rendering, which configuration, whether logging is on: settled before the
+                #                       length of the message is looked at (no loop entered, no operation survived)
             else:
                 return []
         if not seen_len:
